@@ -290,3 +290,26 @@ func o2(fsys *simfs.FS, o *pogreb.Options) *pogreb.Options {
 	c.FileSystem = fsys
 	return &c
 }
+
+// F11 (C06): after a recovery, Sync must reach the segment that holds the unsynced tail
+// of the previous session (the newest one), not the lowest-numbered segment.
+func TestF11_SyncAfterRecovery(t *testing.T) {
+	fsys := simfs.New()
+	o := opts(fsys, 512+40, 1<<30, 0.5, false)
+	db := mustOpen(t, fsys, o)
+	_ = db.Put([]byte("a"), []byte("0123456789"))
+	_ = db.Put([]byte("b"), []byte("0123456789")) // rolls over: "b" sits in the second segment, unsynced
+	fsys.Kill()                                    // the process dies; the page cache survives
+	db2 := mustOpen(t, fsys, o)                    // recovery
+	if got := show(contents(t, db2)); got != "a=01234567..(10) b=01234567..(10) " {
+		t.Fatalf("after recovery: %q", got)
+	}
+	if err := db2.Sync(); err != nil {
+		t.Fatal(err)
+	}
+	fs3 := simfs.FromImage(allDurableLost(fsys))
+	db3 := mustOpen(t, fs3, o2(fs3, o))
+	if got := show(contents(t, db3)); got != "a=01234567..(10) b=01234567..(10) " {
+		t.Errorf("after Sync and power loss: %q", got)
+	}
+}
